@@ -8,7 +8,15 @@ from .. import oracles as orc
 from .. import pipeline as pl
 
 THEOREMS = ["C04.bias_params", "C04.fixed_ranges", "C04.shared_params_kept",
-            "C17.scale_pos", "C17.zp_in_range", "C17.sym_zp_zero"]
+            "C17.scale_pos", "C17.zp_in_range", "C17.sym_zp_zero",
+            # C04b: what materialisation requests for a tensor IS the reference formula applied to that tensor's statistics
+            "C04.act_params_reference", "C04.act_params_reference_any_gran", "C04.act_params_missing", "C04.act_params_wellformed",
+            "C04.config_choice", "C04.weight_params_reference", "C04.weight_request_ignores_stats", "C04.calibrated_stats_recomputed",
+            "C04.weight_stats_true_minmax", "C04.per_channel_only_weight_config", "C04.weight_params_shape",
+            "C04.tensorQuantParams_wellformed", "C04.ref_params_wellformed", "C04.handed_params", "C04.same_as_input", "C04.same_as_input_srq",
+            "C04.concat_same_as_output", "C04.bias_request", "C04.fixed_range_output", "C04.dispatch_table", "C04.dispatch_rules",
+            "C04.dispatch_bias", "C04.Ex.w_request", "C04.Ex.x_request", "C04.Ex.stale_stats_ignored",
+            "C04.Ex.const_data_operand_per_channel", "C04.Ex.channelwise_activation_witness"]
 
 
 def recompute_stats(case):
@@ -38,7 +46,21 @@ def run(ctx):
                 "per-channel only on weights on the kernel's dimension, symmetric => 0), op-level rules (bias, same-as-input, concatenation, "
                 "fixed ranges) and the reference min/max formulas applied to statistics the check recomputes from its own interpreter run; "
                 "materialisation compared bit-exactly with the Lean model; distinct = distinct (model, recipe)")
-    common.proof_side(ctx, THEOREMS, modules=["QProps.C04", "QProps.C17", "QProps.C17b"])
+    ctx.explanation = ("Proved on the materialisation model, for every model / statistics / config: the request for a runtime tensor of a static-range "
+                       "operator carries exactly the reference min/max formula applied to the recorded statistics (act_params_reference), the "
+                       "request for a constant carries the formula applied to the constant's TRUE per-tensor / per-channel min/max under the "
+                       "granularity configured now, with its quantized data, whatever the statistics dictionary holds (weight_params_reference, "
+                       "weight_stats_true_minmax, weight_request_ignores_stats -- false before repair D36, Ex.stale_stats_ignored is the "
+                       "regression); all such parameters are well formed by the C17 laws (finite positive scales, zero points in range, equal "
+                       "lengths = 1 or the channel count, 0 when symmetric); per-channel parameters only on constants of weight ops under a "
+                       "CHANNELWISE weight config on the kernel's dimension; outputs share the input's parameters / concatenation inputs the "
+                       "output's / fixed ranges / bias = input scale x weight scale (same_as_input, concat_same_as_output, fixed_range_output, "
+                       "bias_request) with the dispatch of each operator checked against the regenerated registry table. Witnessed "
+                       "non-properties kept in the file: a CONSTANT data operand of FULLY_CONNECTED gets per-channel parameters "
+                       "(Ex.const_data_operand_per_channel; such models are not generated, see DESIGN), a CHANNELWISE activation config would "
+                       "put a quantized dimension on a runtime tensor (the shipped policy never produces one). The statements are at the level "
+                       "of the per-operator materialisation; their lifting through the whole generate loop is covered by execution.")
+    common.proof_side(ctx, THEOREMS, modules=["QProps.C04", "QProps.C04b", "QProps.C17", "QProps.C17b"])
     drv = common.Driver()
 
     def per_case(case, res):
